@@ -21,8 +21,19 @@ Tie (H1, record time): the real libmcount linked with harness/h1_c18_driver.c (s
 4 threads, UFTRACE_SCRIPT=<x.testing> so that script_init() succeeds without an interpreter and the
 driver's own logging functions are the script callbacks) on random call forests with random filters
 and trace_on / trace_off triggers; the hook log is compared with the model (Uft.Script.Hook on top of
-Uft.Mcount) and checked for pairing per thread.  One end-to-end run: `uftrace record -S log.py` on a
+Uft.Mcount) and checked for pairing per thread.  End-to-end runs: `uftrace record -S log.py` on a
 multi-threaded C program.
+
+Fix-up records (group `fixup` of the H3 part): directories with calls of setjmp / longjmp (to the jmp_buf
+armed last), exec* and fork / vfork by symbol name, forked child tasks that start with the EXIT of fork;
+the script's callbacks are compared with replay line by line including the depth (Lean: scriptRunX /
+replayShownX, c18_depth_matches_replay_fixups).  cmds/replay.c before the repair of F-C18-EXIT-ADDR is the
+model variant `exitaddr=0`.
+
+Every thread at record time (harness/c18_mt.py): generated pthread programs (2-4 threads) recorded with -S
+<logging script> in Python and in Lua, one callback slow, the other threads' hooks forced to overlap with
+it; per tid the callback log must equal the calls of the recorded data and be properly paired (Lean:
+c18_record_time_every_thread; utils/script-luajit.c without a lock is finding F-C18-LUA-NOLOCK).
 """
 import json
 import os
@@ -36,26 +47,55 @@ from lib import common as C
 from lib import datadir as D
 
 NAMES = ["main", "alpha", "beta", "gamma", "delta", "eps", "zeta", "eta"]
-NF = len(NAMES)
-SYMS = [(0x100 * (k + 1), 0x40, n) for k, n in enumerate(NAMES)]
+NF = len(NAMES)                      # the functions the random walks call
+# fix-up symbols (utils/fstack.c fixup_syms[], matched by name): what fstack_entry / fstack_update do for them
+FIXKIND = {"setjmp": "s", "_setjmp": "s", "sigsetjmp": "s", "longjmp": "l", "siglongjmp": "l", "execve": "e", "execl": "e",
+           "fork": "f", "vfork": "f"}
+ALLNAMES = NAMES + sorted(FIXKIND)
+SYMS = [(0x100 * (k + 1), 0x40, n) for k, n in enumerate(ALLNAMES)]
 ADDR = [D.BASE + rel for rel, _, _ in SYMS]
 FN_OF_ADDR = {a: k for k, a in enumerate(ADDR)}
-FN_OF_NAME = {n: k for k, n in enumerate(NAMES)}
+FN_OF_NAME = {n: k for k, n in enumerate(ALLNAMES)}
+FIX_FNS = {FN_OF_NAME[n]: k for n, k in FIXKIND.items()}
 T0 = 2000
 HAVE_LUA = True
 OCT_CASE = {"python": True, "lua": True}     # does the binding have `case ARG_FMT_OCT` (set from the translator)
 F_OCT = "F-C18-OCT"
 F_ARGS = "F-C18-ARGS"
 F_EXITHOOK = "F-C18-EXITHOOK"
+F_EXITADDR = "F-C18-EXIT-ADDR"
+F_LUALOCK = "F-C18-LUA-NOLOCK"
 
 
 # ------------------------------------------------------------------ formatting as print_time_unit()
+TIME_LIMITS = [1000, 1000, 1000, 60, 60, 1 << 31]      # `limit[]` of __print_time_unit; re-read from the snapshot by run()
+
+
+def read_time_limits(src):
+    """the unit table of utils/debug.c __print_time_unit() as the snapshot has it (it had 24 minutes per hour
+    before commit 932eef0; only durations of 24 minutes and more are affected)"""
+    try:
+        text = open(os.path.join(src, "utils", "debug.c")).read()
+    except OSError:
+        return None
+    m = re.search(r"unsigned\s+limit\[\]\s*=\s*\{([^}]*)\}", text)
+    if not m:
+        return None
+    vals = []
+    for tok in m.group(1).replace("\n", " ").split(","):
+        tok = tok.strip()
+        if not tok:
+            continue
+        vals.append(1 << 31 if tok == "INT_MAX" else int(tok, 0))
+    return vals if len(vals) == 6 else None
+
+
 def fmt_unit(ns):
     """utils/debug.c __print_time_unit(): '%3d.%03d %2s', blank for 0."""
     if ns == 0:
         return ""
     units = ["us", "ms", " s", " m", " h"]
-    limit = [1000, 1000, 1000, 60, 24, 1 << 31]
+    limit = TIME_LIMITS
     delta, small = ns, 0
     idx = 0
     for idx in range(len(units)):
@@ -481,6 +521,150 @@ def gen_case(rng, idx, tier, group):
     return case
 
 
+
+# ------------------------------------------------------------------ fix-up records (setjmp / longjmp / exec / fork)
+def gen_fixup_case(rng, idx, tier):
+    """Data whose depth in replay is not `number of open calls`: one task makes setjmp / longjmp (always to the
+    jmp_buf armed last: replay keeps one global setjmp depth, finding C11-LONGJMP-DEPTH is about other
+    targets), exec* and fork / vfork calls — recorded as calls of functions with these names, as the PLT
+    hook records them —, forked children start with the EXIT of fork; 0-2 further ordinary tasks."""
+    case = {"idx": idx, "group": "fixup", "payloads": [], "args": False, "argless": 0, "specs": {}, "fixups": True}
+    case["lang"] = "lua" if (rng.random() < 0.3 and HAVE_LUA) else "py"
+    fn_of = FN_OF_NAME
+    tids = rng.sample(range(100, 30000), 8)
+    tasks = []
+    t = [T0 + rng.randint(0, 40)]
+
+    def step():
+        x = rng.random()
+        t[0] += rng.randint(1, 60) if x < 0.9 else rng.randint(100, 900000)
+        return t[0]
+    recs, stack = [], []
+    armed = None            # (depth of the setjmp call, open calls at that time): the jmp_buf armed last
+    children = []
+    nops = rng.choice([10, 16, 24, 40])
+    maxdepth = rng.choice([3, 4, 6])
+    want = {"l": rng.random() < 0.75, "e": rng.random() < 0.3, "f": rng.random() < 0.45}
+    counts = {"s": 0, "l": 0, "e": 0, "f": 0}
+
+    def E(fn):
+        recs.append(("E", step(), len(stack), fn, 0))
+        stack.append(fn)
+
+    def X():
+        fn = stack.pop()
+        recs.append(("X", step(), len(stack), fn, 0))
+    E(0)
+    for _ in range(nops):
+        acts = []
+        if len(stack) < maxdepth:
+            acts += ["call"] * 4
+            if want["l"]:
+                acts += ["setjmp"] * 2
+            if want["f"] and counts["f"] < 2:
+                acts += ["fork"]
+        if len(stack) > 1:
+            acts += ["ret"] * 3
+        if armed and len(stack) >= armed[1] and want["l"]:
+            acts += ["longjmp"] * (3 if len(stack) > armed[1] else 1)
+        if want["e"] and counts["e"] < 1 and len(recs) > 4 and len(stack) >= 1:
+            acts += ["exec"]
+        a = rng.choice(acts or ["call"])
+        if a == "call":
+            E(stack[-1] if (stack and stack[-1] < NF and rng.random() < 0.15) else rng.randrange(1, NF))
+        elif a == "ret":
+            X()
+            if armed and len(stack) < armed[1]:
+                armed = None            # the function that called setjmp returned
+        elif a == "setjmp":
+            name = rng.choice(["setjmp", "setjmp", "_setjmp", "sigsetjmp"])
+            E(fn_of[name])
+            X()
+            armed = (len(stack), len(stack), fn_of[name])
+            counts["s"] += 1
+        elif a == "longjmp":
+            recs.append(("E", step(), len(stack), fn_of[rng.choice(["longjmp", "longjmp", "siglongjmp"])], 0))
+            del stack[armed[1]:]
+            recs.append(("X", step(), armed[0], armed[2], 0))      # the second return of setjmp
+            counts["l"] += 1
+        elif a == "fork":
+            name = rng.choice(["fork", "fork", "vfork"])
+            d = len(stack)
+            E(fn_of[name])
+            tf = t[0]
+            inherited = list(stack[:-1])
+            X()
+            tx = t[0]
+            children.append({"d": d, "fn": fn_of[name], "fork_time": tf, "first": rng.randint(tf + 1, tx + 5),
+                             "inherited": inherited})
+            counts["f"] += 1
+        elif a == "exec":
+            recs.append(("E", step(), len(stack), fn_of[rng.choice(["execve", "execl"])], 0))
+            del stack[:]
+            armed = None
+            E(0)
+            counts["e"] += 1
+    open_end = rng.random() < 0.3
+    if not open_end:
+        while stack:
+            X()
+    tasks.append({"tid": tids[0], "recs": recs, "open": len(stack)})
+    for ch in children:
+        ct = [ch["first"]]
+
+        def cstep():
+            ct[0] += rng.randint(1, 60)
+            return ct[0]
+        crecs = [("X", ct[0], ch["d"], ch["fn"], 0)]
+        cstack = list(ch["inherited"])
+        base = len(cstack)
+        for _ in range(rng.choice([0, 2, 4, 8])):
+            if len(cstack) == base or (len(cstack) < base + 3 and rng.random() < 0.55):
+                crecs.append(("E", cstep(), len(cstack), rng.randrange(1, NF), 0))
+                cstack.append(crecs[-1][3])
+            else:
+                fn = cstack.pop()
+                crecs.append(("X", cstep(), len(cstack), fn, 0))
+        if rng.random() < 0.7:
+            keep = rng.choice([0, 0, base]) if base else 0
+            while len(cstack) > keep:
+                fn = cstack.pop()
+                crecs.append(("X", cstep(), len(cstack), fn, 0))
+        tasks.append({"tid": tids[len(tasks)], "recs": crecs, "open": len(cstack), "parent": 0,
+                      "fork_time": ch["fork_time"]})
+    for _ in range(rng.choice([0, 0, 1, 2])):
+        def pstep():
+            return rng.randint(1, 60)
+        precs, nopen = gen_task(rng, case, T0 + rng.randint(0, 400), pstep, rng.choice([4, 8, 14]), rng.choice([2, 3, 5]),
+                                rng.random() < 0.3)
+        tasks.append({"tid": tids[len(tasks)], "recs": precs, "open": nopen})
+    case["tasks"] = tasks
+    case["fix_counts"] = counts
+    o = {"F": [], "N": [], "D": None, "t": None, "noargs": False, "tid": None}
+    if rng.random() < 0.3:
+        r = rng.random()
+        if r < 0.4:
+            o["F"] = rng.sample(range(NF), rng.choice([1, 2]))
+        elif r < 0.7:
+            o["N"] = rng.sample(range(1, NF), 1)
+        else:
+            o["D"] = rng.randint(2, 4)
+    case["opts"] = o
+    funcs, matched = [], None
+    if rng.random() < 0.2:
+        sel = rng.sample(range(len(ALLNAMES)), rng.choice([2, 3, 5]))
+        funcs = [ALLNAMES[f] for f in sel]
+        matched = sorted(sel)
+    case["funcs"], case["matched"] = funcs, matched
+    # replay's leaf-folding look-ahead (fstack_skip) passes over the records a filter rejects without
+    # applying their fix-ups (fstack_entry is not called for them), `uftrace script` has no look-ahead:
+    # and it takes the next EXIT of the task at the same depth for the return of the call it folds, also the
+    # second return of a setjmp after a longjmp inside a -N region: with -F / -N / -D the comparison is with
+    # --no-merge (the same differences exist between the two replay modes; they are replay's, not the script's)
+    case["merge"] = rng.random() < 0.5 and not (o["F"] or o["N"] or o["D"])
+    return case
+
+
 PY_SCRIPT = '''import json
 %s
 def _a(v):
@@ -536,7 +720,11 @@ def write_case(case, d):
     pid = case["tasks"][0]["tid"]
     for t in case["tasks"]:
         recs = [D.Rec(tm, typ, dep, ADDR[fn], payload_bytes(case, p)) for typ, tm, dep, fn, p in t["recs"]]
-        tasks.append(D.Task(t["tid"], recs, pid=pid))
+        if t.get("parent") is not None:          # a forked child: its own process, FORK line in task.txt
+            tasks.append(D.Task(t["tid"], recs, pid=t["tid"], ppid=case["tasks"][t["parent"]]["tid"],
+                                fork_time=t["fork_time"]))
+        else:
+            tasks.append(D.Task(t["tid"], recs, pid=pid))
     if case["args"] and case["specs"]:
         dd = ArgDir(SYMS, tasks)
         dd.specs = case["specs"]
@@ -554,9 +742,9 @@ def cmd_opts(case):
     o = case["opts"]
     a = []
     for f in o["F"]:
-        a += ["-F", NAMES[f]]
+        a += ["-F", ALLNAMES[f]]
     for f in o["N"]:
-        a += ["-N", NAMES[f]]
+        a += ["-N", ALLNAMES[f]]
     if o["D"] is not None:
         a += ["-D", str(o["D"])]
     if o["t"] is not None:
@@ -568,7 +756,7 @@ def cmd_opts(case):
     return a
 
 
-def model_line(case, cmd, argsfixed=1, funcs=True):
+def model_line(case, cmd, argsfixed=1, funcs=True, exitaddr=1):
     o = case["opts"]
 
     def lst(l):
@@ -576,9 +764,15 @@ def model_line(case, cmd, argsfixed=1, funcs=True):
     trig = sorted(int(f) for f, sp in case["specs"].items() if sp["args"]) if case["args"] else []
     w = [cmd, "depth=%d" % (o["D"] if o["D"] is not None else 1024), "modein=%d" % (1 if o["F"] else 0),
          "thr=%d" % (o["t"] or 0), "showargs=%d" % (0 if o["noargs"] else 1), "argsfixed=%d" % argsfixed,
+         "exitaddr=%d" % exitaddr,
          "F=" + lst(o["F"]), "N=" + lst(o["N"]),
-         "funcs=" + (lst(case["matched"] if case["matched"] else [NF + 7]) if (funcs and case["funcs"]) else "-"),
+         "funcs=" + (lst(case["matched"] if case["matched"] else [len(ALLNAMES) + 7]) if (funcs and case["funcs"]) else "-"),
          "argtrig=" + lst(trig)]
+    if case.get("fixups"):
+        w.append("fix=" + ",".join("%d:%s" % (f, k) for f, k in sorted(FIX_FNS.items())))
+        par = ["%d:%d" % (i, t["parent"]) for i, t in enumerate(case["tasks"]) if t.get("parent") is not None]
+        if par:
+            w.append("parent=" + ",".join(par))
     for i, t in enumerate(case["tasks"]):
         w.append("|")
         if o["tid"] is not None and i not in o["tid"]:
@@ -601,10 +795,13 @@ def ev_model(case, line):
         p = tok.split(":")
         if p[0] == "E":
             _, tid, dep, tm, fn, a = p
-            out.append(("E", tids[int(tid)], int(dep), int(tm), ADDR[int(fn)], NAMES[int(fn)], canon_token_list(case, int(a))))
+            out.append(("E", tids[int(tid)], int(dep), int(tm), ADDR[int(fn)], ALLNAMES[int(fn)], canon_token_list(case, int(a))))
         else:
             _, tid, dep, tm, dur, fn, a = p
-            out.append(("X", tids[int(tid)], int(dep), int(tm), int(dur), ADDR[int(fn)], NAMES[int(fn)],
+            if fn == "none":            # the address of a frame slot no ENTRY has filled (pre-fix replay model only)
+                out.append(("X", tids[int(tid)], int(dep), int(tm), int(dur), 0, None, canon_token_list(case, int(a))))
+                continue
+            out.append(("X", tids[int(tid)], int(dep), int(tm), int(dur), ADDR[int(fn)], ALLNAMES[int(fn)],
                         canon_token_list(case, int(a))))
     return out
 
@@ -743,11 +940,14 @@ def run_h3(ctx, uftrace, known):
     rng = ctx.rng
     quick = ctx.tier == "quick"
     plan = [("plain", 150 if quick else 8000), ("funcs", 50 if quick else 2500), ("args", 70 if quick else 4000),
-            ("argless", 12 if quick else 200), ("oct", 8 if quick else 100)]
+            ("argless", 12 if quick else 200), ("oct", 8 if quick else 100), ("fixup", 90 if quick else 4000)]
     cases = []
     for group, n in plan:
         for _ in range(n):
-            cases.append(gen_case(rng, len(cases), ctx.tier, group))
+            if group == "fixup":
+                cases.append(gen_fixup_case(rng, len(cases), ctx.tier))
+            else:
+                cases.append(gen_case(rng, len(cases), ctx.tier, group))
     root = os.path.join(ctx.scratch, "h3")
     os.makedirs(root, exist_ok=True)
 
@@ -765,17 +965,20 @@ def run_h3(ctx, uftrace, known):
         res = list(ex.map(one, cases))
 
     mlines = []
+    NM = 5          # model lines per case
     for c in cases:
         mlines.append(model_line(c, "RUN", 1))
         mlines.append(model_line(c, "RUN", 0))
         mlines.append(model_line(c, "SHOW", 1))
         mlines.append(model_line(c, "RUN", 1, funcs=False))
+        mlines.append(model_line(c, "SHOW", 1, exitaddr=0))
     mout = C.run_model("C18", mlines)
 
     st = {"cases": len(cases), "callbacks": 0, "script_vs_model_bad": 0, "replay_vs_model_bad": 0, "monitor_bad": 0,
           "prefix_args": 0, "oct_defect": 0, "lua": 0, "with_funcs": 0, "with_filters": 0, "with_args": 0, "open_calls": 0,
           "argless_entries": 0, "folded": 0, "arg_values_compared": 0, "arg_kinds": {}, "str_len_mod4": [0, 0, 0, 0],
-          "multi_arg_payloads": 0}
+          "multi_arg_payloads": 0, "fixup_cases": 0, "fixup_records": {"s": 0, "l": 0, "e": 0, "f": 0},
+          "fork_children": 0, "longjmp_entry_callbacks": 0, "prefix_exit_addr": 0}
     distinct = set()
     samples = []
     reported = {"": 0, F_OCT: 0}
@@ -789,12 +992,22 @@ def run_h3(ctx, uftrace, known):
         st["with_args"] += case["args"]
         st["open_calls"] += sum(t["open"] for t in case["tasks"])
         st["argless_entries"] += case["argless"]
-        m_fixed = ev_model(case, mout[4 * i])
-        m_show = ev_model(case, mout[4 * i + 2])
-        m_all = ev_model(case, mout[4 * i + 3])
+        if case.get("fixups"):
+            st["fixup_cases"] += 1
+            for k, v in case["fix_counts"].items():
+                st["fixup_records"][k] += v
+            st["fork_children"] += sum(1 for t in case["tasks"] if t.get("parent") is not None)
+        m_fixed = ev_model(case, mout[NM * i])
+        m_show = ev_model(case, mout[NM * i + 2])
+        m_all = ev_model(case, mout[NM * i + 3])
+        # replay before the repair of F-C18-EXIT-ADDR: the line is about the same function (name), the address
+        # printed is the one left in the frame's slot
+        m_show_pre = [(a[:5] + (b[5],) + a[6:]) if a[0] == "X" else a
+                      for a, b in zip(m_show, ev_model(case, mout[NM * i + 4]))]
         cbs, bad1 = ev_script(case, out1)
         rep, bad2 = ev_replay(case, out2)
         st["callbacks"] += len(cbs)
+        st["longjmp_entry_callbacks"] += sum(1 for c in cbs if c[0] == "E" and FIXKIND.get(c[5]) == "l")
         st["folded"] += sum(1 for x in rep if x[0] == "X" and x[3] is None)
         for c in cbs:
             if c[0] in "EX" and c[-1]:
@@ -805,12 +1018,12 @@ def run_h3(ctx, uftrace, known):
                     if k == "str":
                         st["str_len_mod4"][len(v) % 4] += 1
         if len(m_fixed) > 2:
-            distinct.add(mlines[4 * i] + "#" + json.dumps(case["specs"], sort_keys=True) + case["lang"])
+            distinct.add(mlines[NM * i] + "#" + json.dumps(case["specs"], sort_keys=True) + case["lang"])
         if len(samples) < 3 and i % 53 == 7:
             samples.append({"options": cmd_opts(case), "UFTRACE_FUNCS": case["funcs"], "lang": case["lang"],
                             "specs": {NAMES[int(f)]: [s["text"] for s in sp["args"]] + ["= " + sp["ret"]["text"] if sp["ret"] else ""]
                                       for f, sp in case["specs"].items()},
-                            "model_input": mlines[4 * i][:400], "script_output": out1[:300], "model": mout[4 * i][:300]})
+                            "model_input": mlines[NM * i][:400], "script_output": out1[:300], "model": mout[NM * i][:300]})
         problems = []
         if rc1 != 0 or rc2 != 0:
             problems.append("uftrace script rc=%s replay rc=%s: %s %s" % (rc1, rc2, err1[-200:], err2[-200:]))
@@ -824,6 +1037,7 @@ def run_h3(ctx, uftrace, known):
         want = rep if case["matched"] is None else [x for x in rep if FN_OF_NAME.get(x[5] if x[0] == "E" else x[6]) in case["matched"]]
         got = as_replay(body)
         args_only = False
+        exit_addr = None
         if mon is None:
             if len(got) != len(want):
                 mon = "the script got %d entry/exit callbacks, replay shows %d entry/exit lines%s" % (
@@ -831,6 +1045,13 @@ def run_h3(ctx, uftrace, known):
             else:
                 for k, (s, w) in enumerate(zip(got, want)):
                     f = same_as_replay(s, w)
+                    if f == "address" and s[0] == "X" and s[5] == ADDR[FN_OF_NAME.get(s[6], 0)] and s[6] == w[6] and \
+                            same_as_replay(s, w[:5] + (s[5],) + w[6:]) is None:
+                        # the callback carries the address of the function both name; the address replay prints on
+                        # the same line is another one (shape of finding F-C18-EXIT-ADDR): noted, the other fields
+                        # of the remaining lines are still compared
+                        exit_addr = exit_addr or (k, s, w)
+                        continue
                     if f:
                         mon = "callback #%d %r differs from the replay line %r in %s" % (k, s, w, f)
                         args_only = f in ("args", "retval")
@@ -839,14 +1060,42 @@ def run_h3(ctx, uftrace, known):
             outside = [c for c in body if FN_OF_NAME.get(c[5] if c[0] == "E" else c[6]) not in case["matched"]]
             if outside:
                 mon = "callback for %r, which is not in UFTRACE_FUNCS" % (outside[0],)
-        if mon is None:
-            mon = pairing(body)
+        if mon is None and not case.get("fixups"):
+            mon = pairing(body)          # (after a longjmp / exec an exit does not close the innermost open entry)
         # ---- correspondence: script against the model's callbacks, replay against the model's shown lines
         sm = cbs == m_fixed
         if not sm:
             st["script_vs_model_bad"] += 1
         mrep = as_replay(m_show)
         rm = len(mrep) == len(rep) and all(same_as_replay(a, b) is None for a, b in zip(mrep, rep))
+        mrep_pre = as_replay(m_show_pre)
+        rm_pre = len(mrep_pre) == len(rep) and all(same_as_replay(a, b) is None for a, b in zip(mrep_pre, rep))
+        if not rm and rm_pre:
+            # replay follows the model of cmds/replay.c before the repair of F-C18-EXIT-ADDR
+            st["prefix_exit_addr"] += 1
+            rm = True
+        if exit_addr and rm_pre:
+            f = next((k for k in known if k.get("id") == F_EXITADDR), None)
+            what = ("finding=%s uftrace replay -f addr prints the address left in the frame's slot on an EXIT line (0 for the "
+                    "first record of a forked child, another function after a longjmp); the script's uftrace_exit gets the "
+                    "address of the function that returns (implementation matches the pre-fix model)" % F_EXITADDR)
+            if f is not None:
+                C.known(ctx, f, what)
+            elif not reported.get(F_EXITADDR):
+                reported[F_EXITADDR] = 1
+                k, sline, wline = exit_addr
+                C.violation(ctx, "h3-exit-addr-case%d" % case["idx"], {
+                    "kind": "property-violated-on-implementation", "finding": F_EXITADDR,
+                    "what": "uftrace_exit callback #%d %r: replay -f addr shows %r for the same record (address %#x instead "
+                            "of %#x)" % (k, sline, wline, wline[5], sline[5]),
+                    "defect": what, "theorem": "c18_depth_matches_replay_fixups / c18_prefix_exit_addr_witness",
+                    "proposed_fix": "proposed_fixes/C18-EXIT-ADDR.diff",
+                    "options": cmd_opts(case), "UFTRACE_FUNCS": case["funcs"], "lang": case["lang"], "case": case,
+                    "script_output": out1[:3000], "replay_output": out2[:3000],
+                    "model_input": mlines[NM * i], "model_shown_prefix": mout[NM * i + 4]})
+        elif exit_addr and mon is None:
+            k, sline, wline = exit_addr
+            mon = "callback #%d %r differs from the replay line %r in address" % (k, sline, wline)
         if not rm:
             st["replay_vs_model_bad"] += 1
         # the funcs theorem on the model's own output (sanity of the tie): filtered run = filter of the full run
@@ -881,13 +1130,14 @@ def run_h3(ctx, uftrace, known):
                                 "replay output differs from the model" if not rm else problems[0]),
                 "finding": finding,
                 "theorem": ("c18_args_decode_roundtrip_%s" % ("lua" if lua else "python")) if args_only else
-                           ("c18_callbacks_eq_replay" if mon else None),
+                           (("c18_depth_matches_replay_fixups" if case.get("fixups") else "c18_callbacks_eq_replay")
+                            if mon else None),
                 "options": cmd_opts(case), "UFTRACE_FUNCS": case["funcs"], "lang": case["lang"],
                 "argspecs": {NAMES[int(f)]: {"args": [s["text"] for s in sp["args"]], "retval": sp["ret"]["text"] if sp["ret"] else None}
                              for f, sp in case["specs"].items()} if case["args"] else None,
                 "case": case,
                 "script_output": out1[:3000], "replay_output": out2[:3000], "stderr": (err1 + err2)[-500:],
-                "model_input": mlines[4 * i], "model_output": mout[4 * i], "model_shown": mout[4 * i + 2],
+                "model_input": mlines[NM * i], "model_output": mout[NM * i], "model_shown": mout[NM * i + 2],
                 "other_problems": problems[:5],
             }, no_failing_input=not mon)
     st["distinct"] = len(distinct)
@@ -1202,8 +1452,78 @@ def run_e2e(ctx, uftrace, known):
     return st
 
 
+
+def load_mt():
+    import importlib.util
+    sp = importlib.util.spec_from_file_location("c18_mt", os.path.join(C.VERIF, "harness", "c18_mt.py"))
+    m = importlib.util.module_from_spec(sp)
+    sp.loader.exec_module(m)
+    return m
+
+
+def run_e2e_mt(ctx, uftrace, known):
+    """`uftrace record -S` with a Python and a Lua script on generated multi-threaded programs whose hooks
+    overlap (a slow callback in one thread while the others make calls): per tid, callbacks = recorded calls,
+    properly paired (harness/c18_mt.py)"""
+    MT = load_mt()
+    rng = ctx.rng
+    nprog = 5 if ctx.tier == "quick" else 40
+    progs = [MT.gen_program(rng, i) for i in range(nprog)]
+    langs = ["py"] + (["lua"] if HAVE_LUA else [])
+    try:
+        lua_locked = "pthread_mutex_lock" in open(os.path.join(ctx.src, "utils", "script-luajit.c")).read()
+    except OSError:
+        lua_locked = True
+    work = os.path.join(ctx.scratch, "mt")
+    os.makedirs(work, exist_ok=True)
+    jobs = [(p, l) for p in progs for l in langs]
+    libm = os.path.join(ctx.src, "libmcount")
+    with ThreadPoolExecutor(8) as ex:
+        res = list(ex.map(lambda j: MT.run_case(uftrace, libm, work, j[0], j[1]), jobs))
+    st = {"runs": len(jobs), "programs": nprog, "threads": sorted(p["nthr"] for p in progs), "callbacks": 0, "bad_py": 0,
+          "bad_lua": 0, "lua_binding_has_lock": lua_locked, "slow_callback_s": MT.SLOW_S,
+          "kinds": sorted(p["kind"] for p in progs), "with_libcalls": sum(p["libcall"] for p in progs)}
+    reported = set()
+    for (p, lang), r in zip(jobs, res):
+        st["callbacks"] += sum(1 for l in r["log"].split("\n") if l[:2] in ("E ", "X "))
+        if not r["what"]:
+            continue
+        st["bad_" + lang] += 1
+        obj = {"kind": "property-violated-on-implementation", "what": r["what"], "theorem": "c18_record_time_every_thread",
+               "language": lang, "command": r["cmd"], "threads": p["nthr"], "slow_callback": "%s of %s sleeps %.2f s" % (
+                   {"E": "uftrace_entry", "X": "uftrace_exit"}[p["slow_at"]], p["slow"], MT.SLOW_S),
+               "cc": "gcc -O0 %s -pthread" % ("-pg" if p["kind"] == "pg" else "-finstrument-functions"),
+               "program": p["src"], "script": MT.script_text(lang, "<log>", "<marker>", p["slow"], p["slow_at"]),
+               "mt": {k: p[k] for k in ("idx", "nthr", "slow", "slow_at", "slow_calls", "libcall", "kind")},
+               "callback_log": r["log"][-3000:], "replay": r["replay"][-3000:], "stderr": r["stderr"][-800:]}
+        if lang == "lua" and not lua_locked:
+            what = ("finding=%s utils/script-luajit.c calls into its single lua_State from every thread of the traced "
+                    "program without a lock (the python binding has python_interpreter_lock): with -S x.lua on a "
+                    "multi-threaded program overlapping hooks corrupt the Lua state - callbacks are lost or the traced "
+                    "program dies (PANIC: unprotected error in call to Lua API / SIGSEGV)" % F_LUALOCK)
+            f = next((k for k in known if k.get("id") == F_LUALOCK), None)
+            if f is not None:
+                C.known(ctx, f, what)
+                continue
+            if F_LUALOCK in reported:
+                continue
+            reported.add(F_LUALOCK)
+            obj.update({"finding": F_LUALOCK, "defect": what, "proposed_fix": "proposed_fixes/C18-LUA-NOLOCK.diff",
+                        "theorem": "c18_record_time_every_thread / c18_prefix_nolock_witness"})
+            C.violation(ctx, "e2e-mt%d-lua" % p["idx"], obj)
+            continue
+        if len(reported) < 4:
+            reported.add((p["idx"], lang))
+            C.violation(ctx, "e2e-mt%d-%s" % (p["idx"], lang), obj)
+    return st
+
+
 def run(ctx):
     ctx.snapshot()
+    lim = read_time_limits(ctx.src)
+    if lim:
+        TIME_LIMITS[:] = lim
+    ctx.notes.append("__print_time_unit limit[] of the snapshot: %s" % (lim or "not found (default used)"))
     try:
         from translators import scriptargs2lean
         changed, info = scriptargs2lean.main(ctx.src, ctx.scratch)
@@ -1239,8 +1559,9 @@ def run(ctx):
     h3 = run_h3(ctx, uftrace, known)
     hk = run_h1(ctx, known) or {"cases": 0, "distinct": 0, "samples": []}
     e2e = run_e2e(ctx, uftrace, known)
+    mt = run_e2e_mt(ctx, uftrace, known)
     ctx.coverage.update({
-        "evaluations": h3["cases"] + hk["cases"] + (e2e or {}).get("runs", 0),
+        "evaluations": h3["cases"] + hk["cases"] + (e2e or {}).get("runs", 0) + mt["runs"],
         "distinct_nontrivial": h3["distinct"] + hk["distinct"],
         "rule": "H3: random properly nested per-task walks (1-4 tasks, depth <= 7 (30 thorough), recursion 0.2, open calls "
                 "at the end 0.3, timestamp ties 0.35) x random -F/-N/-D/-t/--tid/--no-args x UFTRACE_FUNCS (names, a regex, "
@@ -1258,6 +1579,14 @@ def run(ctx):
         "h3": {k: v for k, v in h3.items() if k != "samples"},
         "h1": {k: v for k, v in hk.items() if k != "samples"},
         "e2e": e2e,
+        "e2e_multithreaded_record_time": mt,
+        "rule_e2e_mt": "generated pthread programs (2-4 worker threads + main, 6 functions on a random acyclic call graph, "
+                       "-pg or -finstrument-functions, with or without library calls) recorded with -S <logging script> in "
+                       "Python and in Lua; the callback of one chosen function (entry or exit) sleeps and keeps a marker file "
+                       "in place, the other threads wait for the marker (raw system calls) and then make their calls, so "
+                       "hooks of different threads overlap in the binding; monitor: begin first / end last once, per tid the "
+                       "callback log is properly nested and equals the entry/exit lines of `replay --no-merge` of the data "
+                       "recorded by the same run",
         "samples": h3["samples"] + hk["samples"],
         "exhaustive": False,
     })
@@ -1283,6 +1612,10 @@ def replay(ctx, path):
     r = json.load(open(path))
     print(json.dumps({k: r.get(k) for k in ("kind", "what", "finding", "theorem", "options", "UFTRACE_FUNCS", "lang", "env")}, indent=1))
     if "case" in r:                      # analysis-time case
+        ctx.snapshot()
+        lim = read_time_limits(ctx.src)
+        if lim:
+            TIME_LIMITS[:] = lim
         okm, log = ctx.make()
         uftrace = os.path.join(ctx.src, "uftrace")
         if not okm:
@@ -1303,7 +1636,40 @@ def replay(ctx, path):
         cbs, _ = ev_script(case, out1)
         same = cbs == ev_model(case, m[0])
         print("script output %s the model" % ("matches" if same else "DIFFERS from"))
-        return 0 if same else 1
+        # replay against the model's shown lines: repaired cmds/replay.c and the one before F-C18-EXIT-ADDR
+        mp = C.run_model("C18", [model_line(case, "SHOW", 1, exitaddr=0)])
+        rep, _ = ev_replay(case, out2)
+        shown = ev_model(case, m[2])
+        shown_pre = [(a[:5] + (b[5],) + a[6:]) if a[0] == "X" else a for a, b in zip(shown, ev_model(case, mp[0]))]
+
+        def agrees(ms):
+            ms = as_replay(ms)
+            return len(ms) == len(rep) and all(same_as_replay(a, b) is None for a, b in zip(ms, rep))
+        rsame = agrees(shown)
+        print("replay output %s the model%s" % ("matches" if rsame else "DIFFERS from", "" if rsame else (
+            "; it matches the model of cmds/replay.c before the repair of %s (address of an EXIT line = what the frame's "
+            "slot holds)" % F_EXITADDR if agrees(shown_pre) else "")))
+        if not rsame:
+            for a, b in zip(as_replay(shown), rep):
+                if same_as_replay(a, b):
+                    print("  first difference (%s): model / script %r, replay %r" % (same_as_replay(a, b), a, b))
+                    break
+        return 0 if (same and rsame) else 1
+    if "mt" in r and "program" in r:     # record-time, multi-threaded end-to-end case
+        okm, log = ctx.make()
+        uftrace = os.path.join(ctx.src, "uftrace")
+        if not okm:
+            print("snapshot build failed:", log[-1000:])
+            return 2
+        MT = load_mt()
+        prog = dict(r["mt"], src=r["program"])
+        bad = 0
+        for k in range(3):              # the overlap is forced, what a lock-less binding does with it is not
+            res = MT.run_case(uftrace, os.path.join(ctx.src, "libmcount"), os.path.join(ctx.scratch, "mt-replay"), prog,
+                              r["language"])
+            print("run %d: rc=%s %s" % (k, res["rc"], res["what"] or "callbacks of every thread = its recorded calls, paired"))
+            bad += bool(res["what"])
+        return 1 if bad else 0
     if "ops" in r and "env" in r:        # record-time case
         from lib import h1
         exe, log = h1.build(ctx, "normal", driver="h1_c18_driver.c", out="h1c18")
